@@ -52,7 +52,11 @@ def run_batch(tier, seed, runs=None, wall=None):
     """One batch in the current interpreter (its PYTHONHASHSEED is the batch's hash seed)."""
     cfg = TIERS[tier]
     runs = runs or int(os.environ.get("VERIF_RUNS", "0")) or cfg["runs"]
-    items = [(seed, i) for i in range(runs)]
+    # every hash-seed batch of a tier explores its own range of histories (run indices do not overlap between batches)
+    hs = os.environ.get("PYTHONHASHSEED", "0")
+    seeds = [str(x) for x in cfg.get("hashseeds", [0])]
+    off = seeds.index(hs) * runs if hs in seeds else 0
+    items = [(seed, off + i) for i in range(runs)]
     t0 = time.time()
     res = engine.pool_map(run_one, items, wall_cap=wall or cfg["wall"])
     return {"results": [r for _, r in res], "wall": time.time() - t0, "hashseed": os.environ.get("PYTHONHASHSEED", "?")}
